@@ -437,3 +437,30 @@ PROPS["C17"] = dict(
     required_labels=dict(both=["TestKeyringModel/remove-middle-while-held", "TestKeyringModel/remove-on-empty", "TestKeyRotation/different-step-order"]),
     assumptions=CLUSTER_ASSUMPTIONS + ["data races are reported by the Go race detector only on the interleavings that actually occurred"],
 )
+
+PROPS["C19"] = dict(
+    title="Probe acknowledgements are correctly correlated, relayed and cleaned up",
+    pkg="./props/c19",
+    level="exploration",
+    rule=("prober role: one real node (probe interval 1 s, timeout 300 ms, awareness max 2/4/8, IndirectChecks 0-3 with as many scripted helpers advertising "
+          "PMax 2-5, TCP pings on/off, subject PMax 2/3/5) probes a scripted subject 1-6 times; per probe the plan fixes, relative to that probe's own "
+          "awareness-scaled deadline, the direct ack (none / before the probe timeout / between timeout and deadline / after the deadline, optionally "
+          "duplicated), each helper's relayed ack (none / in time / late / wrong sequence number) and nack, the TCP fallback (refused / stalls / right or wrong "
+          "sequence number / late / garbage) and up to 4 foreign acks and nacks (unknown, previous-probe, other-node, 0 and 2^32-1 sequence numbers, from the "
+          "subject, a helper or a stranger). Oracle: the subject is suspected at the deadline iff no acknowledgement carrying this probe's number arrived in "
+          "time by any of the three routes; indirect requests and TCP pings are only issued after the probe timeout; GetHealthScore equals a clamped counter "
+          "model (-1 answered, +1 failed without nack-capable helpers, + expected - received nacks otherwise) after every probe. relay role: 1-6 indirect-ping "
+          "requests (with/without nack, with/without source address, repeated requester numbers, 1-700 ms apart) whose target answers in time / twice / late / "
+          "never / with a foreign number: fresh sequence number towards the target, exactly one relayed ack under the requester's number 100.4 ms after the "
+          "request, or exactly one nack at the probe timeout iff requested, nothing else. cleanup (overlay hook): no pending handler survives its deadline. "
+          "non-trivial = probe with a late, foreign or duplicate acknowledgement / any relay request / handlers observed pending"),
+    tests=[
+        dict(name="prober", run="^TestProberCorrelation$", quick=dict(shards=10, checks=150, timeout=600), thorough=dict(shards=10, checks=6000, timeout=3400)),
+        dict(name="relay", run="^TestRelay$", quick=dict(shards=3, checks=700, timeout=600), thorough=dict(shards=3, checks=30000, timeout=3000)),
+        dict(name="pending", run="^TestPendingAcksDiscarded$", tags="vfhook", quick=dict(shards=3, checks=150, timeout=600), thorough=dict(shards=3, checks=5000, timeout=3000)),
+    ],
+    assumptions=PUPPET_ASSUMPTIONS + [
+        "scripted arrivals are at least 20 ms away from every deadline and 200 us network latency applies, so no arrival ties with a timer",
+        "the pending-handler count is read through an accessor injected by build overlay (tag vfhook, /verif/hooks); if the ack table is renamed that sub-check stops building and the check reports inconclusive",
+    ],
+)
